@@ -315,6 +315,23 @@ def body(chk):
     ok = incs == ['masa.h'] and not extra and re.search(r'%module\s+masa\b', itxt)
     chk.add(framework.Ob('swig:masa.i-wraps-exactly-masa.h', 'prop', '(assert %s)\n(check-sat)\n' % ('false' if ok else 'true'), 'unsat',
                          dict(obligation='masa.i', includes=incs, extra_declarations=extra), None, 'swig', (), family='swig'))
+    # ... and SWIG sees the same header: the C declarations visible with SWIG defined (what `%include "masa.h"` hands to swig's preprocessor)
+    # are exactly those visible without it (masa.h.in preprocessed both ways by clang -E; masa.h itself is configure output of the same text)
+    import subprocess
+
+    def visible(defs):
+        hin = os.path.join(src, 'masa.h.in')
+        p_ = subprocess.run(['clang-14', '-E', '-P', '-w', '-x', 'c'] + defs + [hin], stdout=subprocess.PIPE, stderr=subprocess.PIPE, universal_newlines=True, timeout=120)
+        if p_.returncode != 0:
+            raise Unparsed('masa.h.in does not preprocess: ' + p_.stderr[-300:])
+        return set(re.findall(r'\b(masa_\w+)\s*\(', p_.stdout))
+    try:
+        plain, swig = visible([]), visible(['-DSWIG'])
+        diff = sorted(plain ^ swig)
+        chk.add(framework.Ob('swig:declarations-visible-to-SWIG==declarations-visible-to-C', 'prop', '(assert %s)\n(check-sat)\n' % ('true' if diff else 'false'), 'unsat',
+                             dict(obligation='masa.h.in preprocessed with and without -DSWIG', only_in_one_view=diff[:10], c_view=len(plain), swig_view=len(swig)), None, 'swig:view', (), family='swig'))
+    except Unparsed as e:
+        chk.infra.append(str(e))
     # vacuity guard: a deliberately wrong binding must be reported (witness)
     if fort:
         import copy
